@@ -63,7 +63,7 @@ async function dynamic ({ leaf, resp, a, v, code, ctx }) {
   let n = 0
   // quick tier: the generated families take the 4 most discriminating environments, the others all of them
   let envs = X.envVariants(code, ctx.tier)
-  if (ctx.tier !== 'thorough' && leaf && 'HQRNLT'.includes(leaf.fam)) envs = envs.slice(0, 4)
+  if (ctx.tier !== 'thorough' && leaf && 'HQRNLTK'.includes(leaf.fam)) envs = envs.slice(0, 4)
   for (const spec of envs) {
     await X.runOne(outCtx, spec, (w) => { world = w })
     n++
